@@ -193,6 +193,8 @@ class Executor(ExprMixin, StmtMixin, LoopMixin):
                 goal = z3.BoolVal(True)
         if getattr(self.c, "canon_binders", False):
             info = dict(info or {}, canon_binders=True)
+        if getattr(self.c, "seq_bridge", False):
+            info = dict(info or {}, seq_bridge=True)
         if getattr(self.c, "portfolio", None):
             from . import solve as _solve
 
@@ -709,12 +711,18 @@ class Executor(ExprMixin, StmtMixin, LoopMixin):
         pos = z3.Function(fresh_name("ext_pos"), z3.IntSort(), z3.IntSort())
         j, k, i = z3.Int(fresh_name("ej")), z3.Int(fresh_name("ek")), z3.Int(fresh_name("ei"))
         nN, nS = z3.Length(N), z3.Length(S)
+        def forall(vs, body, *pats):
+            try:
+                return z3.ForAll(vs, body, patterns=list(pats))
+            except z3.Z3Exception:
+                return z3.ForAll(vs, body)  # (S is not a plain term: z3 rejects S[i] as a pattern)
+
         st.assume(nN <= nS)
-        st.assume(z3.ForAll([j], z3.Implies(z3.And(j >= 0, j < nN),
-                                            z3.And(pos(j) >= 0, pos(j) < nS, N[j] == S[pos(j)], z3.Not(seq_contains_elem(old, N[j])))), patterns=[N[j]]))
-        st.assume(z3.ForAll([j, k], z3.Implies(z3.And(j >= 0, j < k, k < nN), z3.And(pos(j) < pos(k), N[j] != N[k])), patterns=[z3.MultiPattern(N[j], N[k])]))
-        st.assume(z3.ForAll([i], z3.Implies(z3.And(i >= 0, i < nS, z3.Not(seq_contains_elem(old, S[i]))), z3.Contains(N, z3.Unit(S[i]))), patterns=[S[i]]))
-        st.assume(z3.ForAll([j, i], z3.Implies(z3.And(j >= 0, j < nN, i >= 0, i < pos(j)), S[i] != N[j]), patterns=[z3.MultiPattern(N[j], S[i])]))
+        st.assume(forall([j], z3.Implies(z3.And(j >= 0, j < nN),
+                                         z3.And(pos(j) >= 0, pos(j) < nS, N[j] == S[pos(j)], z3.Not(seq_contains_elem(old, N[j])))), N[j]))
+        st.assume(forall([j, k], z3.Implies(z3.And(j >= 0, j < k, k < nN), z3.And(pos(j) < pos(k), N[j] != N[k])), z3.MultiPattern(N[j], N[k])))
+        st.assume(forall([i], z3.Implies(z3.And(i >= 0, i < nS, z3.Not(seq_contains_elem(old, S[i]))), z3.Contains(N, z3.Unit(S[i]))), S[i]))
+        st.assume(forall([j, i], z3.Implies(z3.And(j >= 0, j < nN, i >= 0, i < pos(j)), S[i] != N[j]), z3.MultiPattern(N[j], S[i])))
         return Val(lt, z3.Concat(old, N))
 
     def is_logger(self, n):
@@ -973,6 +981,12 @@ class Executor(ExprMixin, StmtMixin, LoopMixin):
             else:
                 if not isinstance(t, T.Opt):
                     bound[n] = self.deopt(bound[n], st, node)
+                if isinstance(t, T.List) and bound[n].is_py:
+                    from . import models as _models
+
+                    ci_ = _models.carrier_info(bound[n])
+                    if ci_ is not None:
+                        bound[n] = _models.carrier_to_list(self, st, ci_, node)  # a dict view / range passed where the contract says List(T)
                 bound[n] = coerce(bound[n], t) if bound[n].ty is not PYOBJ or is_const(bound[n]) or bound[n].is_py and isinstance(bound[n].py, (list, tuple, dict)) else bound[n]
         cst.env = dict(bound)
         callee.spec_mode = True
@@ -1027,6 +1041,9 @@ class Executor(ExprMixin, StmtMixin, LoopMixin):
                     st.ghost[("wline", (ocls, fn))] = getattr(node, "lineno", None)
                     continue
                 arr = self.field_array(st, cn, fn)
+                for k_, lk_ in st.ghost.items():
+                    if isinstance(k_, tuple) and k_[0] == "link" and lk_[1] == cn and lk_[2] == fn:
+                        self.assumptions_used.add(f"callee {cc.key} changes {cn}.{fn} IN PLACE (does not re-bind it) while the local '{k_[1]}' aliases that container")
                 st.heap[(cn, fn)] = z3.Const(fresh_name(f"H_{cn}_{fn}"), arr.sort())
                 st.ghost[("wline", (cn, fn))] = getattr(node, "lineno", None)
             else:
